@@ -32,6 +32,7 @@ import (
 	"verif/harness/cbor"
 	"verif/harness/env"
 	"verif/harness/h"
+	_ "verif/harness/warm"
 	"verif/harness/keys"
 	"verif/harness/tok"
 	"verif/harness/val"
